@@ -9,6 +9,10 @@ TRUST = ("Trusted base: the harness itself (simulated clock, transport, peers, c
 
 # id -> (category, text, design_ref, technique, extra note)
 CHECKS = {
+ "C01": ("exploration", "Deterministic simulation of whole exchanges in a discrete-event world (simulated clock, in-order segment transport with drawn latencies, client think times, spurious wake-ups): 1..3 back-to-back exchanges on one fixed server byte stream under drawn arrival / output / piece / read-buffer schedules with queries interleaved. Oracles: (a) reference models for head, request payload, response head, response body, terminal state, verdict; (b) metamorphic equality with the canonical-schedule twin of the real code; (c) conservation: consumed == message length and the next exchange starts exactly there on the same stream; (d) bounded liveness once the schedule is fair; plus a peer-close sub-batch in which the exchange must not complete.", "6/C01", "deterministic simulation: seeded discrete-event schedules (arrival x buffer x think time x re-polls) with reference, metamorphic (canonical twin), conservation and bounded-liveness oracles", ""),
+ "C06": ("exploration", "Schedule-free: the framing decision is a function of (method, status, version, Content-Length, Transfer-Encoding). All 4860 coarse cells are visited round-robin on every run (values inside a cell sampled by seed) through the real exchange path and compared with an independent RFC 9112 section 6.3 reference: error on non-numeric length, successor state, body_mode, delivered bytes, exact consumption; cells the statement does not decide are DontCare.", "6/C06", "seeded stratified configuration search (round-robin over 4860 cells) through the simulated exchange against an independent framing reference (schedule-free)", ""),
+ "C10": ("exploration", "Simulated exchanges over the product of close-relevant features, with the Expect handshake outcome produced by the simulated timer racing drawn arrival latencies; the verdict at Redirect and Cleanup is compared with the set of close conditions that are true in the run (both directions coded separately), the reason is mapped to a true condition, the all-five cell is forced regularly, and a connection reported reusable is really reused for a next exchange on the same stream.", "6/C10", "deterministic simulation: seeded histories (timer race, handshake outcome) x configurations, verdict vs the set of true close conditions, pool-reuse continuation", ""),
+ "C11": ("exploration", "The handshake as a real race in simulated time: a reactive simulated peer (100 / refusal / silence, drawn think time, structural segmentation of its first head) against the client's await-100 timer (0 .. 60 s simulated). Every look is judged by zone against the ground-truth head (status line: nothing decided or consumed; complete bare 100: consumed exactly; complete non-100: refused, nothing consumed), the edge out of Await100 must match the decision, and every branch is continued to Cleanup/Redirect with the delivered response, body, skip count and consumption checked.", "6/C11", "deterministic simulation: simulated timer vs peer think time vs segment latency race, zone oracle per look, continuation to completion", ""),
  "C02": ("exploration", "Seeded simulation of the send window while the request head is written: the one-shot head is strictly re-parsed and compared with an independent reference head (request line, caller-added then original headers, exactly one Host, exactly the framing header the body uses), then a second instance is written under drawn output-size sequences biased to len(next line)+{-1,0,+1}; every call must end on a line boundary, overflow iff the next line does not fit, concatenation identical to the one-shot head; extra writes after completion must emit nothing and the flow is then continued into the body state and a body is really sent. Also run at redirect depth 1..3 by the redirect world.", "6/C02", "deterministic simulation: seeded send-window schedules x generated requests, strict re-parse against a reference head, continuation into the body state", ""),
  "C05": ("exploration", "Seeded simulation of TCP segmentation of the response head: generated well-formed heads (0..128 fields, a 129..140 class, OWS/obs-text/empty values, repeated names, 3xx with Location anywhere) followed by arbitrary bytes, offered on drawn increasing arrival prefixes (every prefix for short heads) with re-polls to Flow, Call and the parser; strict prefix => need-more/0 consumed/not ready, complete => exact head and |H| consumed. The deliberate partial-redirect hack (D6) is recognised by a narrow signature and reported as KNOWN-FINDING; any other response-on-prefix is a violation.", "6/C05", "deterministic simulation: seeded arrival-prefix schedules (segmentation, re-polls) over generated heads with ground truth known by construction", ""),
  "C07": ("exploration", "Seeded simulation of a chunked download: valid codings (small-scope grammar 3 of 4 runs, random beyond) behind a real head and followed by a next message, delivered under drawn arrival cut sets (structural cuts at every grammar-class change) into drawn output sizes with boundary stopping on/off/toggled, re-polls, and a sub-batch where the peer closes mid-coding. Per read: counts bounded, payload in step with consumption, never past the coding, ended iff final CRLF consumed, one chunk per read with boundary stopping, bounded progress once the schedule is fair. Coverage is measured over 104 (grammar position x output class x stop) cells.", "6/C07", "deterministic simulation: seeded arrival/buffer schedules and peer-close faults over generated chunked codings with a ground-truth chunk map", ""),
